@@ -158,7 +158,7 @@ func RunOpts(srcDir, dstDir string, rewrite bool) (*Descriptor, error) {
 	parsed := map[string]*ast.File{}
 	srcs := map[string][]byte{}
 	clockSeam := true
-	treeHasGo := false // a tree that starts goroutines of its own keeps its channel operations (and stays operation-granular)
+	treeHasGo := false                      // a tree that starts goroutines of its own keeps its channel operations (and stays operation-granular)
 	clockScales := map[int64]bool{}         // durations (ns) that appear in the tree as N * time.Unit or time.Unit
 	pkgVars := map[string]map[string]bool{} // dir -> names
 	pkgMut := map[string]map[string]bool{}  // dir -> names of package-level variables that are not error sentinels
